@@ -16,16 +16,18 @@ field by field (sub-fields populated in the source overwrite, the others are kep
 repeated field; with no update mask the destination (or its writable fields) is cleared first, so
 everything is replaced; a field named by the mask and not populated in the source is cleared.
 
-Masks are lists of top-level paths (`x` stands for a path that is not a field of the message), with
-duplicates and order kept as given.  `flatOps` follows `pkg/masks` (`FieldUpdater.Validate/Merge`,
-`ResponseFilter.FilterClone`), `fieldmaskpb.{IsValid,Union,Intersect}` and `fmutils` phase by phase,
-specialised to such masks.  (Nested masks are C05's subject.)
+Masks are lists of paths: the five top-level paths, `x` (a path that is not a field of the message)
+and the two NESTED paths `fc` = `default_foreign_message.c`, `fd` = `default_foreign_message.d` (so masks
+can name a parent, its children, or both), with duplicates and order kept as given.  `flatOps` follows
+`pkg/masks` (`FieldUpdater.Validate/Merge`, `pruneEmpty`, `isWritablePath`, `nestedMask`,
+`ResponseFilter.FilterClone`), `fieldmaskpb.{IsValid,Union}` and `fmutils` phase by phase, specialised to
+such masks.  (Masks in general depth are C05's subject.)
 
 Integers are unbounded here; the harness keeps |values| far below 2^31 so `int32` never wraps.
 -/
 namespace ScVerif.C01
 
-inductive Field | a | s | c | f | r | x
+inductive Field | a | s | c | f | r | x | fc | fd
   deriving DecidableEq, Repr
 
 abbrev Mask := List Field
@@ -42,7 +44,7 @@ namespace Flat
 
 def zero : Msg := { a := 0, s := "", c := none }
 
-/-- `protoreflect.Message.Has` -/
+/-- `protoreflect.Message.Has` (`fc`/`fd`: of the nested message, false when it is absent) -/
 def has (m : Msg) : Field → Bool
   | .a => m.a ≠ 0
   | .s => m.s ≠ ""
@@ -50,8 +52,10 @@ def has (m : Msg) : Field → Bool
   | .f => m.f.isSome
   | .r => !m.r.isEmpty
   | .x => false
+  | .fc => match m.f with | some (c, _) => c ≠ 0 | none => false
+  | .fd => match m.f with | some (_, d) => d ≠ 0 | none => false
 
-/-- `protoreflect.Message.Clear` -/
+/-- `protoreflect.Message.Clear` (`fc`/`fd`: on the nested message when it is present) -/
 def clear (m : Msg) : Field → Msg
   | .a => { m with a := 0 }
   | .s => { m with s := "" }
@@ -59,51 +63,92 @@ def clear (m : Msg) : Field → Msg
   | .f => { m with f := none }
   | .r => { m with r := [] }
   | .x => m
+  | .fc => { m with f := m.f.map (fun p => (0, p.2)) }
+  | .fd => { m with f := m.f.map (fun p => (p.1, 0)) }
 
 /-- `proto.Merge` of a `ForeignMessage`: populated (non-zero) sub-fields of the source overwrite -/
 def mergeForeign (d s : Int × Int) : Int × Int :=
   (if s.1 ≠ 0 then s.1 else d.1, if s.2 ≠ 0 then s.2 else d.2)
 
-/-- `proto.Merge` for one populated field `f` of `src`: a scalar is overwritten, a nested message
-is merged into (created if absent), a repeated field is appended to -/
+/-- `proto.Merge` for one populated top-level field `f` of `src`: a scalar is overwritten, a nested
+message is merged into (created if absent), a repeated field is appended to -/
 def copy (dst src : Msg) : Field → Msg
   | .a => { dst with a := src.a }
   | .s => { dst with s := src.s }
   | .c => { dst with c := src.c }
   | .f => { dst with f := src.f.map (mergeForeign (dst.f.getD (0, 0))) }
   | .r => { dst with r := dst.r ++ src.r }
-  | .x => dst
+  | _ => dst
 
+/-- the top-level fields -/
 def fields : List Field := [.a, .s, .c, .f, .r]
+
+/-- the top-level fields other than the nested message -/
+def plainFields : List Field := [.a, .s, .c, .r]
 
 /-- `FieldMask.IsValid(msg)` -/
 def isValid (m : Mask) : Bool := m.all (· ≠ .x)
 
-/-- `normalizePaths`: sorted, duplicate free (top-level paths have no prefixes of each other). -/
-def normalize (m : Mask) : Mask := [Field.f, .a, .s, .c, .r, .x].filter (m.contains ·)
+/-- `normalizePaths`: sorted, duplicate free, and a path that lies inside another path of the list is
+dropped (`f.c` next to `f`). -/
+def normalize (m : Mask) : Mask :=
+  [Field.f, .fc, .fd, .a, .s, .c, .r, .x].filter
+    (fun p => m.contains p && !((p = .fc || p = .fd) && m.contains .f))
 
 /-- `fieldmaskpb.Union` -/
 def union (w : Mask) (more : Option Mask) : Mask := normalize (w ++ more.getD [])
 
-/-- `fieldmaskpb.Intersect` -/
-def intersect (x y : Mask) : Mask := (normalize x).filter ((normalize y).contains ·)
+/-- How a mask selects the nested message field, as `masks.nestedMask` builds it (a path inside
+another path of the list adds nothing: `f` next to `f.c` selects the whole of `f`): not at all, as a
+whole, or some of its sub-fields. -/
+inductive FSel | no | whole | part (c d : Bool)
+  deriving DecidableEq, Repr
 
-/-- `fmutils.NestedMask.Filter`: an empty mask keeps everything. -/
+def fsel (mask : Mask) : FSel :=
+  if mask.contains .f then .whole
+  else if mask.contains .fc || mask.contains .fd then .part (mask.contains .fc) (mask.contains .fd)
+  else .no
+
+/-- `fmutils.NestedMask.Filter` / `masks.filterMessage`: an empty mask keeps everything; a partly
+selected nested message keeps the selected sub-fields (and stays present). -/
 def nmFilter (mask : Mask) (m : Msg) : Msg :=
   if mask.isEmpty then m
-  else fields.foldl (fun acc fld => if mask.contains fld then acc else clear acc fld) m
+  else
+    let m := plainFields.foldl (fun acc fld => if mask.contains fld then acc else clear acc fld) m
+    match fsel mask with
+    | .no => clear m .f
+    | .whole => m
+    | .part c d => (if d then id else (clear · .fd)) ((if c then id else (clear · .fc)) m)
 
 /-- `fmutils.NestedMask.Prune` -/
 def nmPrune (mask : Mask) (m : Msg) : Msg :=
-  fields.foldl (fun acc fld => if mask.contains fld then clear acc fld else acc) m
+  let m := plainFields.foldl (fun acc fld => if mask.contains fld then clear acc fld else acc) m
+  match fsel mask with
+  | .no => m
+  | .whole => clear m .f
+  | .part c d => (if d then (clear · .fd) else id) ((if c then (clear · .fc) else id) m)
 
-/-- `proto.Merge(dst, src)`: populated scalar fields of `src` overwrite. -/
+/-- `proto.Merge(dst, src)`: populated fields of `src` overwrite / merge / append. -/
 def protoMerge (dst src : Msg) : Msg :=
   fields.foldl (fun acc fld => if has src fld then copy acc src fld else acc) dst
 
-/-- `masks.pruneEmpty(dst, src, mask)` -/
+/-- `masks.pruneEmpty(dst, src, mask)`: a populated field of `dst` the mask mentions and `src` does not
+populate is cleared; for a partly mentioned nested message only the mentioned sub-fields are (those
+`src` does not populate, all of them when `src` lacks the message). -/
 def pruneEmpty (dst src : Msg) (mask : Mask) : Msg :=
-  fields.foldl (fun acc fld => if has acc fld && mask.contains fld && !(has src fld) then clear acc fld else acc) dst
+  let dst := plainFields.foldl
+    (fun acc fld => if has acc fld && mask.contains fld && !(has src fld) then clear acc fld else acc) dst
+  match fsel mask with
+  | .no => dst
+  | .whole => if has dst .f && !(has src .f) then clear dst .f else dst
+  | .part c d =>
+    let sub (sel : Bool) (fld : Field) (acc : Msg) : Msg :=
+      if sel && has acc fld && !(has src fld) then clear acc fld else acc
+    sub d .fd (sub c .fc dst)
+
+/-- `masks.isWritablePath`: the path is one of the writable paths or lies inside one of them -/
+def isWritablePath (w : Mask) (p : Field) : Bool :=
+  w.contains p || ((p = .fc || p = .fd) && w.contains .f)
 
 /-- `FieldUpdater.Validate` -/
 def validate (u : Upd Mask) (_msg : Msg) : Option Code :=
@@ -116,7 +161,7 @@ def validate (u : Upd Mask) (_msg : Msg) : Option Code :=
         | none => none
         | some w =>
           -- `isWritablePath` for every update path (repo 4d3ae38; duplicates of a writable path pass)
-          if !(m.all (w.contains ·)) then some .invalidArgument else none
+          if !(m.all (isWritablePath w)) then some .invalidArgument else none
   match updErr with
   | some e => some e
   | none =>
